@@ -506,6 +506,18 @@ func (e *Engine) exec(i int, op *Op) {
 		e.version[op.Path] = 1
 		e.sendRaw("textDocument/didOpen", map[string]interface{}{"textDocument": map[string]interface{}{"uri": URI(op.Path), "languageId": "lua", "version": 1, "text": string(text)}}, false, i)
 		settle()
+	case "clear":
+		// select all + delete: one range edit from the start to the end of the buffer as it is now
+		cur, isOpen := e.Open[op.Path]
+		if !isOpen {
+			e.res.Skipped = append(e.res.Skipped, i)
+			return
+		}
+		c2 := *op
+		c2.Kind = "change"
+		c2.Edits = []Edit{{Start: Pos{0, 0}, End: PosOf(cur, len(cur)), Text: ""}}
+		e.exec(i, &c2)
+		return
 	case "change":
 		cur, isOpen := e.Open[op.Path]
 		if !isOpen || len(op.Edits) == 0 {
